@@ -32,6 +32,7 @@ type c06Case struct {
 	Timeout  time.Duration // CloseTimeout
 	Repeat   bool          // call Close once more afterwards
 	Panics   bool          // the handler of m1 panics when it is released (the router recovers it and Nacks)
+	Drain    bool          // scripted subscriber whose Close() drains: it returns (and closes the channel) only after the delivered messages were settled
 	Conf     bool          // conformance run: internal hook events are recorded as well (RouterLifecycleImplTrace)
 }
 
@@ -92,6 +93,10 @@ func runC06(c *Ctx) error {
 		cases = append(cases, c06Case{Class: "timeout/" + src, Source: src, Label: "handler", Closers: 1, Handlers: 1, Msgs: 1, Slow: 700 * time.Millisecond, Timeout: 150 * time.Millisecond, Repeat: true})
 		cases = append(cases, c06Case{Class: "timeout/" + src, Source: src, Label: "handler", Closers: 2, Handlers: 1, Msgs: 1, Slow: 500 * time.Millisecond, Timeout: 100 * time.Millisecond})
 	}
+	// ... also when the subscriber's Close() drains (the receive loop does not end before the handler does)
+	cases = append(cases, c06Case{Class: "timeout-draining/scripted", Source: "scripted", Label: "handler", Closers: 1, Handlers: 1, Msgs: 1, Slow: 3 * time.Second, Timeout: 100 * time.Millisecond, Drain: true})
+	cases = append(cases, c06Case{Class: "timeout-draining/scripted", Source: "scripted", Label: "handler", Closers: 2, Handlers: 2, Msgs: 1, Slow: 3 * time.Second, Timeout: 150 * time.Millisecond, Drain: true, Repeat: true})
+	cases = append(cases, c06Case{Class: "draining/scripted", Source: "scripted", Label: "handler", Closers: 2, Handlers: 1, Msgs: 2, Timeout: 3 * time.Second, Drain: true})
 	// random park-and-run programs
 	n := c.Pick(30, 3000)
 	for i := 0; i < n; i++ {
@@ -201,7 +206,12 @@ func c06RunC(r *tr.Run, rc *tr.Run, cs c06Case) (gateReached bool) {
 		var sub message.Subscriber
 		if cs.Source == "scripted" {
 			s := scripted.NewSub("sub")
-			s.OnClose = func() { r.Emit("subclose") }
+			if cs.Drain {
+				s.Drain = true
+				s.OnCloseStart = func() { r.Emit("subclose") }
+			} else {
+				s.OnClose = func() { r.Emit("subclose") }
+			}
 			subs = append(subs, s)
 			sub = s
 		} else {
